@@ -1,10 +1,10 @@
 package main
 
 import (
-	"sort"
 	"fmt"
 	"go/token"
 	"go/types"
+	"sort"
 	"strings"
 
 	"golang.org/x/tools/go/ssa"
@@ -265,7 +265,6 @@ func checkC19(w *World, r *Report) {
 	ruleUnwrap(w, r, "C19")
 	ruleLoopVarCapture(w, r, "C19.LOOPVAR")
 }
-
 
 // proxyMethodFlavour: "ewma" / "plain" when method name of type t (declared or promoted) hands its
 // byte count to the bar's Ewma / plain increment; "" when t has no such method or it accounts nothing.
